@@ -864,6 +864,42 @@ static void run_r565_case(const char *line)
   tj3Free(k->jpeg);
 }
 
+/* source JPEG with arbitrary luma sampling factors hs x vs (chroma 1x1), e.g. 4x2 = 4:1:0, 3x1, 1x3, 2x4:
+   makes the decompressor use int_upsample with h_expand / v_expand 1..4 */
+static int make_jpeg_api(kase *k, int hs, int vs)
+{
+  struct jpeg_compress_struct c;
+  struct jpeg_error_mgr jerr;
+  unsigned char *out = NULL; unsigned long outsize = 0;
+  size_t rb = (size_t)k->w * 3;
+  uint8_t *src = malloc(rb * (size_t)k->h + 8);
+  volatile int ok = 0;
+  fill_rows(src, k->h, rb, rb, 1, 255, 0x777 + k->w * 31 + k->h);
+  in_call = 1;
+  if (sigsetjmp(jb, 1) == 0) {
+    c.err = jpeg_std_error(&jerr);
+    jerr.error_exit = rs_error_exit; jerr.output_message = rs_output_message;
+    jpeg_create_compress(&c);
+    jpeg_mem_dest(&c, &out, &outsize);
+    c.image_width = k->w; c.image_height = k->h; c.input_components = 3; c.in_color_space = JCS_RGB;
+    jpeg_set_defaults(&c);
+    jpeg_set_quality(&c, 90, TRUE);
+    c.comp_info[0].h_samp_factor = hs; c.comp_info[0].v_samp_factor = vs;
+    c.comp_info[1].h_samp_factor = c.comp_info[1].v_samp_factor = 1;
+    c.comp_info[2].h_samp_factor = c.comp_info[2].v_samp_factor = 1;
+    jpeg_start_compress(&c, TRUE);
+    while (c.next_scanline < c.image_height) { JSAMPROW r = src + (size_t)c.next_scanline * rb; jpeg_write_scanlines(&c, &r, 1); }
+    jpeg_finish_compress(&c);
+    jpeg_destroy_compress(&c);
+    ok = 1;
+  }
+  in_call = 0;
+  free(src);
+  if (!ok) { snprintf(k->err, sizeof k->err, "setup:jpeg-api"); return -1; }
+  k->jpeg = tj3Alloc(outsize); memcpy(k->jpeg, out, outsize); k->jpegSize = outsize; free(out);
+  return 0;
+}
+
 /* ------------------------------------------------------------ every post-processing configuration */
 /* libjpeg API decode with quantize_colors (1-pass / 2-pass, dither none/ordered/FS) or without, any
    out_color_space incl. JCS_RGB565, merged or separate upsampling, scale, optional jpeg_crop_scanline and
@@ -887,7 +923,9 @@ static void run_pp_case(const char *line)
   k->pf = TJPF_RGB;
   if (!strcmp(src, "gray")) k->ss = TJSAMP_GRAY;
   if (!strcmp(src, "rgb")) k->rgbcs = 1;
-  if (make_jpeg(k)) { printf("err %s\n", k->err); return; }
+  { int hs = geti(line, "hs", 0), vs = geti(line, "vs", 0);
+    if (hs >= 1 && hs <= 4 && vs >= 1 && vs <= 4) { if (make_jpeg_api(k, hs, vs)) { printf("err %s\n", k->err); return; } }
+    else if (make_jpeg(k)) { printf("err %s\n", k->err); return; } }
   static const J_COLOR_SPACE css[4] = { JCS_RGB, JCS_RGB565, JCS_EXT_RGBX, JCS_GRAYSCALE };
   gbuf g[16], ga; int ng = 0;
   uint8_t *mask = NULL;
